@@ -147,6 +147,8 @@ type State struct {
 	dead   bool
 	ghost  map[string]string
 	names  map[string]string // term -> constant bound to it on this path
+	ver    int               // bumped by every write to objects / abstract state
+	id     int               // unique per State object
 }
 
 type loopEntry struct {
@@ -157,7 +159,7 @@ func (s *State) clone() *State {
 	n := &State{objs: make(map[int]string, len(s.objs)), st: make(map[string]string, len(s.st)),
 		pc: s.pc[:len(s.pc):len(s.pc)], pcb: s.pcb[:len(s.pcb):len(s.pcb)], decls: s.decls[:len(s.decls):len(s.decls)],
 		active: make(map[*ssa.BasicBlock]*loopEntry, len(s.active)), trace: s.trace[:len(s.trace):len(s.trace)],
-		alias: make(map[int]bool, len(s.alias)), depth: s.depth, ghost: make(map[string]string, len(s.ghost)), names: make(map[string]string, len(s.names))}
+		alias: make(map[int]bool, len(s.alias)), depth: s.depth, ver: s.ver, id: nextStateID(), ghost: make(map[string]string, len(s.ghost)), names: make(map[string]string, len(s.names))}
 	for k, v := range s.names {
 		n.names[k] = v
 	}
@@ -183,6 +185,12 @@ func (s *State) assume(t string) {
 	if t == "true" || t == "" {
 		return
 	}
+	// the same fact is often produced again by repeated loads: keep one copy (looking at the recent tail is enough)
+	for i, n := len(s.pc)-1, 0; i >= 0 && n < 400; i, n = i-1, n+1 {
+		if s.pc[i] == t {
+			return
+		}
+	}
 	s.pc = append(s.pc, t)
 	s.pcb = append(s.pcb, false)
 }
@@ -198,3 +206,7 @@ func (s *State) assumeBranch(t string) {
 func (s *State) declare(name, sort string) {
 	s.decls = append(s.decls, fmt.Sprintf("(declare-const %s %s)", name, sort))
 }
+
+var stateIDCounter int
+
+func nextStateID() int { stateIDCounter++; return stateIDCounter }
